@@ -74,3 +74,26 @@ Print Assumptions C07_dns_naptr.
 Theorem C07_dns_srv : forall dn rdata, match parsesrv dn rdata with Fault _ => False | _ => True end.
 Proof. exact parsesrv_safe. Qed.
 Print Assumptions C07_dns_srv.
+
+(* ---- the DTLS HelloVerify cookie (tlscommon.c cookie_verify_cb): octets from the network, checked before the peer is
+   authenticated.  `hash` is the keyed hash of peer address and time, `tstamp` the reading of the time stamp: any. *)
+From RSP Require Import Cookie Cookie_proofs.
+
+(* accepted => the cookie is, octet for octet, time stamp ++ hash for that time, has exactly that length, and is recent:
+   in particular nothing outside its own octets took part in the verdict *)
+Theorem C07_cookie_accept_only_whole : forall hash tstamp now c, cookie_verify hash tstamp now c = true ->
+  let t := tstamp (firstn TS c) in
+  c = firstn TS c ++ hash t /\ length c = (TS + length (hash t))%nat /\ (now - t <= COOKIE_MAX_AGE)%Z.
+Proof. exact cookie_accept_only_whole. Qed.
+Print Assumptions C07_cookie_accept_only_whole.
+
+Theorem C07_cookie_wrong_length : forall hash tstamp now c,
+  length c <> (TS + length (hash (tstamp (firstn TS c))))%nat -> cookie_verify hash tstamp now c = false.
+Proof. exact cookie_wrong_length. Qed.
+Print Assumptions C07_cookie_wrong_length.
+
+(* not vacuous: the genuine cookie is accepted while it is recent *)
+Theorem C07_cookie_genuine : forall hash tstamp now ts t, length ts = TS -> tstamp ts = t -> (now - t <= COOKIE_MAX_AGE)%Z ->
+  cookie_verify hash tstamp now (ts ++ hash t) = true.
+Proof. exact cookie_genuine. Qed.
+Print Assumptions C07_cookie_genuine.
